@@ -1,6 +1,9 @@
 From Coq Require Import List ZArith Bool Lia.
 Import ListNotations.
-From Verif Require Import Val Ifthen.
+From Verif Require Import Val IfthenPrec Ifthen.
+
+(* the regenerated precedence values are used by computation only *)
+Ltac prec_values := unfold prec, gen_prec_rel, gen_prec_op, gen_prec_default in *.
 
 Scheme atom_mut := Induction for atom Sort Prop
 with term_mut := Induction for term Sort Prop
@@ -47,7 +50,7 @@ Lemma pop_to_lp_ops l st out : ops l -> pop_to_lp (l ++ TLp :: st) out = Some (s
 Proof.
   revert out; induction l as [|t l IH]; intros out Ho; cbn [app rev pop_to_lp]; [reflexivity|].
   inversion Ho as [|? ? Ht Hl']; subst.
-  destruct t; cbn in Ht; try lia; rewrite IH by assumption; now rewrite <- app_assoc.
+  destruct t; prec_values; try lia; rewrite IH by assumption; now rewrite <- app_assoc.
 Qed.
 
 Lemma post_done_pend :
@@ -65,8 +68,8 @@ Qed.
 
 Lemma pend_ops : (forall a, ops (pend_a a)) /\ (forall t, ops (pend_t t)) /\ (forall e, ops (pend_e e)).
 Proof.
-  apply aet_mutind; cbn; intros; unfold ops in *; repeat constructor; cbn; auto;
-  try (apply Forall_app; split; auto; repeat constructor; cbn; lia).
+  apply aet_mutind; cbn; intros; unfold ops in *; repeat constructor; prec_values; cbn; auto; try lia;
+  try (apply Forall_app; split; auto; repeat constructor; prec_values; cbn; lia).
 Qed.
 
 Lemma run_shape :
